@@ -40,7 +40,11 @@ def run_props_on(repo, props):
             code = 1 if viol else (2 if (low or rep.errors) else 0)
             out[pid] = (code, [f.key for f in viol], [f.text() for f in viol[:3]] or ['ANALYSIS-ERROR ' + m for m in rep.errors[:2]])
         except AnalysisError as e:
-            out[pid] = (2, [], ['ANALYSIS-ERROR %s' % e])
+            viol = [f for f in rep.findings if f.key not in known.get(pid, ())]
+            if viol:
+                out[pid] = (1, [f.key for f in viol], [f.text() for f in viol[:3]])
+            else:
+                out[pid] = (2, [], ['ANALYSIS-ERROR %s' % e])
         except Exception as e:
             out[pid] = (2, [], ['internal error %r' % e])
     return out
